@@ -789,7 +789,7 @@ def run(ctx):
         acc(_generator(ctx, L, _mlw_for(L), False, 'little', lane_acc))
     acc(_generator(ctx, 3, 16, False, 'little', lane_acc, domain='usb'))
     # ---- ConstantStreamGenerator, 32-bit SuperSpeed stream (the USB3 descriptor handler's configuration: max_length_width 16)
-    for L in ((1, 2, 3, 4, 5, 6, 7, 8, 9, 11, 12) if thorough else (1, 3, 4, 5, 7, 9)):
+    for L in ((1, 2, 3, 4, 5, 6, 7, 8, 9, 11, 12) if thorough else (1, 2, 3, 4, 5, 6, 7, 9)):     # 2, 6: byte count + 4 == 2**mlw
         acc(_generator(ctx, L, _mlw_for(L), True, 'little', lane_acc))
     acc(_generator(ctx, 6 if not thorough else 10, 16, True, 'little', lane_acc, domain='ss'))
     for L in ((3, 5, 7, 8, 9) if thorough else (7,)):
